@@ -52,7 +52,8 @@ def gen_cases(tier, seed):
                     "path": r.choice(["str", "pathlib"]), "present": r.random() < 0.7,
                     # the existing target may be reached through a symbolic link or have a second hard link (a data file shared by name)
                     "link": r.choice([None, None, None, "symlink", "hardlink"]),
-                    "value": r.choice(["small", "small", "chunks", "empty", "bad", "mixedkeys"])})
+                    "value": r.choice(["small", "small", "chunks", "empty", "bad", "mixedkeys"]),
+                    "leftover": r.random() < 0.3})
     for i in range(max(8, n // 14)):
         # two or three stores whose files are siblings (same stem) written at the same time with their file operations interleaved one at a
         # time: each target must end up holding its own complete value (shared with C08's file mode)
@@ -169,6 +170,11 @@ def snapshot(d):
 def setup_dir(r, desc, old_bytes):
     d = tempfile.mkdtemp(prefix="vmon-c11-")
     base = os.path.join(d, "target.dat")
+    if desc.get("leftover"):
+        # a staging file left by a writer that was killed earlier (longer than most values): it must not leak into the new value, and a
+        # write that fails by exception leaves no staging file behind - this one included
+        with open(base + ".STAGING", "wb") as f:
+            f.write(b"LEFTOVER-OF-A-KILLED-WRITER " * 40)
     if desc["present"]:
         link = desc.get("link")
         real = base
@@ -194,7 +200,8 @@ def verdict(desc, d, before, new_bytes, raised, returned, k, opname, fault, afte
     """Filesystem oracle. returns (problem text or None, mechanism)."""
     after = snapshot(d)
     tgt = "target.dat"
-    stag = [n for n in after if n != tgt]
+    # (a leftover of an earlier killed writer that this write never touched - same bytes, mtime and inode - is not something THIS write left behind)
+    stag = [n for n in after if n != tgt and after[n] != before.get(n)]
     old = before.get(tgt)
     cur = after.get(tgt)
     where = f"fault {fault} at operation {k} ({opname})"
@@ -320,6 +327,10 @@ def run_case(desc):
             faults = [("raise", e) for e in ERRS] + [("exit", 0), ("raise_base", r.choice([0, 1]))]
             if opname == "replace":
                 faults.append(("raise", errno.EXDEV))
+            if opname in ("replace", "open", "write"):
+                # the same kind of operation keeps failing afterwards (renames are not possible on this file system, the device stays full):
+                # whatever the code tries next, the previous value must survive
+                faults.append(("raise_sticky", errno.EXDEV if opname == "replace" else errno.ENOSPC))
             if K > 60 and k % 7 and opname == "write":
                 faults = [("raise", r.choice(ERRS)), ("exit", 0), ("raise_base", 0)]
             for action, err in faults:
@@ -327,9 +338,13 @@ def run_case(desc):
                 try:
                     path = base if desc["path"] == "str" else pathlib.Path(base)
                     before = snapshot(d)
-                    plan = fsfault.Plan(k=k, action=action, err=err)
+                    sticky = action == "raise_sticky"
+                    if sticky:
+                        action = "raise"
+                        counters["sticky_faults"] = counters.get("sticky_faults", 0) + 1
+                    plan = fsfault.Plan(k=k, action=action, err=err, sticky=sticky)
                     raised = returned = False
-                    fname = errno.errorcode.get(err, "exit") if action == "raise" else ("os._exit" if action == "exit" else ("KeyboardInterrupt" if err == 1 else "BaseException"))
+                    fname = (errno.errorcode.get(err, "exit") + (" (and at every later operation of that kind)" if sticky else "")) if action == "raise" else ("os._exit" if action == "exit" else ("KeyboardInterrupt" if err == 1 else "BaseException"))
                     if action in ("raise", "raise_base"):
                         with fsfault.Shim(plan, d):
                             try:
